@@ -66,6 +66,21 @@ CLAIMED = {
         "note": "assume_mpi_ok for communication calls; field NC.numrecs identified by struct/field identity from clang.",
         "design_ref": "DESIGN.md section 3 / C05",
     },
+    "C02": {
+        "technique": "loop-range / alias analysis of every loop over the request queues, definite-assignment "
+                     "abstract interpretation of the enqueue functions over struct fields, call-precondition and "
+                     "id-parity table rules (clang CFG + AST)",
+        "text": "Decides five structural necessary conditions of wait/cancel equivalence: every one of the ~48 loops "
+                "that index a request queue ranges over that queue's own length field (aliases resolved); no read "
+                "through a stale element pointer inside a queue-compaction loop; every field of an enqueued "
+                "NC_lead_req/NC_req is assigned on all successful paths of both enqueue functions; callers of "
+                "ncmpio_add_record_requests divide nelems by the record count first; request-id parity is consistent "
+                "between assigners and classifiers. It does not decide equality of file contents with blocking "
+                "execution, nor merge/sort/interleave logic in req_aggregation (seeded change C02_a is missed).",
+        "note": "assume_mpi_ok; queue fields identified by struct NC field identity; the sorted-insert exception for "
+                "nonlead_off is path-conditioned, not blanket.",
+        "design_ref": "DESIGN.md section 3 / C02, rules R5, R6",
+    },
 }
 
 NA_REASON = {
